@@ -6,13 +6,14 @@ from jaqalpaq.error import JaqalError
 
 
 def _validate_count(count, what):
-    """A loop or iteration count must be an integer: reject a float, and a
-    constant or parameter declared to be one."""
+    """A loop or iteration count must be an integer, or a constant or
+    parameter that may stand for one."""
     from .parameter import AnnotatedValue, ParamType
 
-    if isinstance(count, float) or (
-        isinstance(count, AnnotatedValue) and count.kind == ParamType.FLOAT
-    ):
+    if isinstance(count, AnnotatedValue):
+        if count.kind not in (ParamType.INT, ParamType.NONE):
+            raise JaqalError(f"{what} {count} is not an integer")
+    elif not isinstance(count, int):
         raise JaqalError(f"{what} {count} is not an integer")
 
 
